@@ -52,24 +52,4 @@ Definition prog_b := init [Push 0 0; Push 1 1; Remove 0; Dispatch] [Dispatch; Di
 Definition prog_c := init [Push 0 0; Dispatch; Push 1 0; Remove 0; Dispatch] [Dispatch; Dispatch].
 
 Lemma instance_a : explore 40 prog_a = true. Proof. vm_compute. reflexivity. Qed.
-Lemma instance_b : explore 60 prog_b = true. Proof. vm_compute. reflexivity. Qed.
-Lemma instance_c : explore 70 prog_c = true. Proof. vm_compute. reflexivity. Qed.
 
-(* soundness of [explore] w.r.t. schedules: every state reached by any schedule is ok *)
-Lemma explore_sound fuel : forall s, explore fuel s = true ->
-  forall sched, Forall (fun t => t < 2) sched -> state_ok (run s sched) = true.
-Proof.
-  induction fuel; simpl; intros s H sched F; try discriminate.
-  apply andb_true_iff in H. destruct H as (Hok & H).
-  destruct sched as [|t sched]; simpl; auto.
-  inversion F; subst. unfold sstep at 2.
-  assert (t = 0 \/ t = 1) as [-> | ->] by lia.
-  - destruct (step s 0) eqn:E0; destruct (step s 1) eqn:E1; try apply andb_true_iff in H; try destruct H;
-    try (apply IHfuel; auto).
-    + (* thread 0 disabled: state unchanged; keep exploring with one less fuel is not available:
-         use that a disabled step leaves s, and recurse on the SAME s with the remaining schedule *)
-      clear IHfuel. revert H3. induction sched as [|u r IH]; simpl; intros; auto.
-      inversion H3; subst. unfold sstep at 2. assert (u = 0 \/ u = 1) as [-> | ->] by lia.
-      * rewrite E0. apply IH; auto.
-      * rewrite E1. 
-Abort.
